@@ -40,8 +40,8 @@ CHECKS = {
    "Arbitrary byte strings beyond the token alphabet/length bound and coverage-guided fuzzing are not claimed (sampling is a different family)."),
  "C09": ("fault_enumeration",
    "stateless deviation-bounded DFS over fault/crash choice points on the real migrate.Executor, judged by a reference executor model",
-   "Every placement of up to 2 (thorough: 3) faults - failing statement, failing revision write, simulated process death before/after either - over all 39 directory shapes (1-3 files x 1-3 statements) is executed on the real Executor with clean re-runs; order, no-skip, at-most-once-except-lost-bookkeeping and 'history never ahead of reality' are checked at every write and at the end.",
-   "In-process recording driver and revision store stand in for the database (the property is about the executor's ordering of the two stores); a failed write persists nothing."),
+   "Every placement of up to 2 (thorough: 3) faults - failing statement, failing revision write, simulated process death before/after either - over all 39 directory shapes (1-3 files x 1-3 statements) is executed on the real Executor with clean re-runs; order, no-skip, at-most-once-except-lost-bookkeeping and 'history never ahead of reality' are checked at every write and at the end. A store slice runs the real Executor over the real SQLite driver and the CLI's own revision store (cmd/atlas/internal/migrate.EntRevisions, compiled in through a build overlay) on 5 shapes x every statement failing once x every placement of up to 2 (thorough: 3) failing database calls of the store - reads as well as writes - over the runs, the database itself observed after every run: no claim beyond what was executed, effects in order, no repeat without a faulted write, convergence.",
+   "In the main enumeration an in-process recording driver and revision store stand in for the database (the property is about the executor's ordering of the two stores); a failed write persists nothing. The store slice uses the real store on SQLite only."),
  "C10": ("fault_enumeration",
    "exhaustive enumeration of every instrumented crash point x occurrence x transaction mode x directory shape on the real CLI binary and a real SQLite file; the process is killed and the command re-run",
    "For tx-mode file/all/none and 7 (thorough 17) directory shapes incl. per-file txmode directives and checkpoint files, a counting run lists every crash point the real `atlas migrate apply` passes (before/after each statement, each revision write, each commit); for each one the process is killed there (exit 137, no deferred code) on a fresh SQLite file and the same command is run again: after the crash no file may be half applied in file/all mode and no revision may record more statements than took effect; after the re-run every statement's effect is present exactly once (none mode: at most the one in-flight statement twice) and all revisions are complete.",
